@@ -7,6 +7,8 @@ import (
 	"go/types"
 	"net"
 	"net/textproto"
+	neturl "net/url"
+	"sort"
 )
 
 type jsonRec struct {
@@ -159,3 +161,44 @@ func init() {
 }
 
 var _ = types.Typ
+
+func structField(st structure, t types.Type, name string) *value {
+	str, ok := t.Underlying().(*types.Struct)
+	if !ok {
+		panic(engineErr{"structField: not a struct"})
+	}
+	for k := 0; k < str.NumFields(); k++ {
+		if str.Field(k).Name() == name {
+			return &st[k]
+		}
+	}
+	panic(engineErr{"structField: no field " + name})
+}
+
+func init() {
+	// printing helpers of the CLI: sinks
+	for _, n := range []string{"printInfo", "printSuccess", "printWarning", "printError", "printRequest", "printDuration"} {
+		externals["github.com/glyphlang/glyph/cmd/glyph."+n] = nop
+	}
+	// (*url.URL).Query on a concrete RawQuery
+	externals["(*net/url.URL).Query"] = func(fr *frame, a []value) value {
+		p := a[0].(*value)
+		ut := fr.i.namedType("net/url", "URL")
+		raw := *structField((*p).(structure), ut, "RawQuery")
+		rs, ok := raw.(string)
+		if !ok {
+			panic(engineErr{"UNSUPPORTED symbolic URL.RawQuery"})
+		}
+		vals, _ := neturl.ParseQuery(rs)
+		m := makeMap(types.Typ[types.String])
+		keys := make([]string, 0, len(vals))
+		for k := range vals {
+			keys = append(keys, k)
+		}
+		sort.Strings(keys)
+		for _, k := range keys {
+			m.insert(fr, k, valStrSlice(vals[k]))
+		}
+		return m
+	}
+}
